@@ -53,7 +53,7 @@ func genConfig(rng *simcore.RNG, env *simcore.Env) simcore.Op {
 		c["bus"] = rng.Bool(0.35)
 		c["cmdcap"] = []int{0, 0, 1, 3, 100}[rng.Intn(5)]
 		c["clients"] = rng.Range(1, 5)
-		c["canaries"] = []int{0, 8, 8, 8, 10}[rng.Intn(5)]
+		c["canaries"] = []int{0, 16, 16, 16, 20}[rng.Intn(5)]
 		c["nops"] = rng.Range(15, 90)
 		if env.Thorough() {
 			c["nops"] = rng.Range(15, 250)
@@ -71,7 +71,7 @@ func genConfig(rng *simcore.RNG, env *simcore.Env) simcore.Op {
 			c["nops"] = rng.Range(10, 160)
 		}
 		c["maxtx"] = []int{0, 1, 3, 6}[rng.Intn(4)]
-		c["canaries"] = []int{0, 8, 8}[rng.Intn(3)]
+		c["canaries"] = []int{0, 16, 16}[rng.Intn(3)]
 		c["foreign"] = rng.Bool(0.5)   // other well-behaved subscribers on the bus
 		c["poison"] = rng.Bool(0.4)    // other subscribers with ill-typed queries
 		c["noindex"] = rng.Bool(0.5)   // some attributes carry Index=false
